@@ -872,4 +872,259 @@ theorem unescape_tokens (env : Env) : ∀ (ts : List Tok) (w : Str), tokOK env t
 
 /-! non-vacuity of the hypotheses used above -/
 
+
+/-! ## audit follow-up: re-tokenising, inert values, `resolveLeaves` -/
+
+/-- re-tokenise substituted provider text (free of `$`): one token per byte -/
+def litToks : Str → List Tok
+  | [] => []
+  | c :: r => (if c = '}' then Tok.close else Tok.lit [c]) :: litToks r
+
+theorem render_litToks : ∀ v : Str, render (litToks v) = v
+  | [] => rfl
+  | c :: r => by
+    by_cases h : c = '}'
+    · simp [litToks, h, render, Tok.render, render_litToks r]
+    · simp [litToks, h, render, Tok.render, render_litToks r]
+
+theorem numRefs_append (a b : List Tok) : numRefs (a ++ b) = numRefs a + numRefs b := by
+  induction a with
+  | nil => simp [numRefs]
+  | cons t a ih => cases t <;> simp [numRefs, ih] <;> omega
+
+theorem numRefs_litToks : ∀ v : Str, numRefs (litToks v) = 0
+  | [] => rfl
+  | c :: r => by
+    by_cases h : c = '}' <;> simp [litToks, h, numRefs, numRefs_litToks r]
+
+theorem tokOK_litToks (env : Env) (post : List Tok) (hp : tokOK env post = true) :
+    ∀ v : Str, hasDollar v = false → tokOK env (litToks v ++ post) = true
+  | [], _ => by simpa [litToks] using hp
+  | c :: r, h => by
+    simp only [hasDollar, List.any_cons, Bool.or_eq_false_iff, beq_eq_false_iff_ne] at h
+    have ih := tokOK_litToks env post hp r (by simpa [hasDollar] using h.2)
+    by_cases hc : c = '}'
+    · simp [litToks, hc, tokOK, ih]
+    · simp [litToks, hc, tokOK, ih, hasDollar, hasClose, h.1]
+
+theorem sem_litToks (env : Env) (post : List Tok) : ∀ v : Str,
+    sem env (litToks v ++ post) = (sem env post).map (v ++ ·)
+  | [] => by simp [litToks]
+  | c :: r => by
+    by_cases hc : c = '}'
+    · simp [litToks, hc, sem, sem_litToks env post r, Option.map_map, Function.comp_def]
+    · simp [litToks, hc, sem, sem_litToks env post r, Option.map_map, Function.comp_def]
+
+theorem sem_append_congr (env : Env) {x y : List Tok} (h : sem env x = sem env y) :
+    ∀ pre : List Tok, sem env (pre ++ x) = sem env (pre ++ y)
+  | [] => h
+  | t :: pre => by
+    have ih := sem_append_congr env h pre
+    cases t <;> simp [sem, ih]
+
+theorem starts_append_of_ne_nil {s : Str} (t : Str) (h : s ≠ []) :
+    startsWithDollarOrBrace (s ++ t) = startsWithDollarOrBrace s := by
+  cases s with
+  | nil => exact absurd rfl h
+  | cons c r => rfl
+
+/-- replacing the first occurrence of a reference token by well-formed text keeps the prefix well formed -/
+theorem tokOK_replace (env : Env) (sc : Option Str) (nm : Str) (post x : List Tok) (hx : tokOK env x = true) :
+    ∀ pre : List Tok, tokOK env (pre ++ .ref sc nm :: post) = true → tokOK env (pre ++ x) = true
+  | [], _ => by simpa using hx
+  | t :: pre, h => by
+    cases t with
+    | lit s =>
+      simp only [List.cons_append, tokOK, Bool.and_eq_true] at h ⊢
+      exact ⟨h.1, tokOK_replace env sc nm post x hx pre h.2⟩
+    | close =>
+      simp only [List.cons_append, tokOK] at h ⊢
+      exact tokOK_replace env sc nm post x hx pre h
+    | esc =>
+      simp only [List.cons_append, tokOK] at h ⊢
+      exact tokOK_replace env sc nm post x hx pre h
+    | ref sc' nm' =>
+      simp only [List.cons_append, tokOK, Bool.and_eq_true] at h ⊢
+      exact ⟨h.1, tokOK_replace env sc nm post x hx pre h.2⟩
+    | dollar =>
+      simp only [List.cons_append, tokOK, Bool.and_eq_true, Bool.not_eq_true'] at h ⊢
+      refine ⟨?_, tokOK_replace env sc nm post x hx pre h.2⟩
+      have h1 := h.1
+      rw [render_append] at h1 ⊢
+      by_cases hp : render pre = []
+      · rw [hp] at h1
+        simp [render, Tok.render, startsWithDollarOrBrace] at h1
+      · rw [starts_append_of_ne_nil _ hp] at h1 ⊢
+        exact h1
+
+/-- length of the rendered non-reference tokens -/
+def nonRefLen : List Tok → Nat
+  | [] => 0
+  | .ref .. :: ts => nonRefLen ts
+  | t :: ts => t.render.length + nonRefLen ts
+
+theorem nonRefLen_append (a b : List Tok) : nonRefLen (a ++ b) = nonRefLen a + nonRefLen b := by
+  induction a with
+  | nil => simp [nonRefLen]
+  | cons t a ih => cases t <;> simp [nonRefLen, ih] <;> omega
+
+theorem nonRefLen_le_render : ∀ ts : List Tok, nonRefLen ts ≤ (render ts).length
+  | [] => by simp [nonRefLen, render]
+  | t :: ts => by
+    have := nonRefLen_le_render ts
+    cases t <;> simp [nonRefLen, render, List.length_append] <;> omega
+
+theorem splitFirstRef_some_of_numRefs : ∀ ts : List Tok, 0 < numRefs ts → (splitFirstRef ts).isSome = true
+  | [], h => by simp [numRefs] at h
+  | .ref _ _ :: ts, _ => by simp [splitFirstRef]
+  | .lit _ :: ts, h => by
+    simp [splitFirstRef, splitFirstRef_some_of_numRefs ts (by simpa [numRefs] using h)]
+  | .close :: ts, h => by
+    simp [splitFirstRef, splitFirstRef_some_of_numRefs ts (by simpa [numRefs] using h)]
+  | .esc :: ts, h => by
+    simp [splitFirstRef, splitFirstRef_some_of_numRefs ts (by simpa [numRefs] using h)]
+  | .dollar :: ts, h => by
+    simp [splitFirstRef, splitFirstRef_some_of_numRefs ts (by simpa [numRefs] using h)]
+
+theorem oddDollarRun_noDollar (s : Str) (h : hasDollar s = false) : oddDollarRun s = false := by
+  unfold oddDollarRun
+  rw [oddRunFrom_noDollar false s h]
+  split <;> rfl
+
+/-- `findURI` finds `${body}` after any prefix whose last segment `pre` (after the last `}`) contains no `$`… stated
+for a `}`-free, `$`-free `pre`: the reference is found at its exact position, whatever follows -/
+theorem findURI_at (mode : Mode) (hd : Bool) (pre body post : Str) (hp : hasDollar pre = false)
+    (hpc : hasClose pre = false) (hb : hasDollar body = false) (hc : hasClose body = false)
+    (hs : hd = true ∨ hasColon body = true) :
+    findURI mode hd (pre ++ '$' :: '{' :: body ++ '}' :: post) = some (pre, body, post) := by
+  have hseg : hasClose (pre ++ '$' :: '{' :: body) = false := by
+    rw [hasClose_append, hpc]; simpa [hasClose] using hc
+  have e : pre ++ '$' :: '{' :: body ++ '}' :: post = (pre ++ '$' :: '{' :: body) ++ '}' :: post := by simp
+  unfold findURI
+  rw [e, splitOnClose_append _ _ hseg, splitOnClose_close]
+  simp only [List.append_nil, findInSegs, candidate, lastOpen_append_open pre body hb]
+  have hcond : (!hd && !hasColon body) = false := by
+    rcases hs with h | h <;> simp [h]
+  simp only [hcond, oddDollarRun_noDollar pre hp, joinClose_split]
+  cases mode <;> simp
+
+mutual
+/-- no string anywhere inside contains `$` (and no `expandedValue` inside: providers do not return them) -/
+def noDollarVal : Val → Bool
+  | .str s => !hasDollar s
+  | .expanded .. => false
+  | .list xs => noDollarVals xs
+  | .map m => noDollarKVs m
+  | _ => true
+def noDollarVals : Vals → Bool
+  | .nil => true
+  | .cons v vs => noDollarVal v && noDollarVals vs
+def noDollarKVs : KVs → Bool
+  | .nil => true
+  | .cons _ v r => noDollarVal v && noDollarKVs r
+end
+
+mutual
+theorem expandValue_inert (env : Env) : ∀ v : Val, noDollarVal v = true → expandValue env v = .ok (v, false)
+  | .str s, h => by
+    rw [expandValue]; exact expandStr_noDollar env s (by simpa [noDollarVal] using h)
+  | .list xs, h => by
+    rw [expandValue, expandVals_inert env xs (by simpa [noDollarVal] using h)]
+  | .map m, h => by
+    rw [expandValue, expandKVs_inert env m (by simpa [noDollarVal] using h)]
+  | .expanded _ _, h => by simp [noDollarVal] at h
+  | .null, _ => by simp [expandValue]
+  | .bool _, _ => by simp [expandValue]
+  | .int _, _ => by simp [expandValue]
+  | .float _, _ => by simp [expandValue]
+  | .other _, _ => by simp [expandValue]
+theorem expandVals_inert (env : Env) : ∀ xs : Vals, noDollarVals xs = true → expandVals env xs = .ok (xs, false)
+  | .nil, _ => by simp [expandVals]
+  | .cons v vs, h => by
+    simp only [noDollarVals, Bool.and_eq_true] at h
+    rw [expandVals, expandValue_inert env v h.1, expandVals_inert env vs h.2]
+    rfl
+theorem expandKVs_inert (env : Env) : ∀ m : KVs, noDollarKVs m = true → expandKVs env m = (m, false, [])
+  | .nil, _ => by simp [expandKVs]
+  | .cons k v r, h => by
+    simp only [noDollarKVs, Bool.and_eq_true] at h
+    rw [expandKVs, expandValue_inert env v h.1, expandKVs_inert env r h.2]
+    rfl
+end
+
+mutual
+theorem escape_inert : ∀ v : Val, noDollarVal v = true → escapeDollarSigns v = v
+  | .str s, h => by
+    rw [escapeDollarSigns, unescape_of_noEsc s (hasEsc_of_noDollar s (by simpa [noDollarVal] using h))]
+  | .list xs, h => by rw [escapeDollarSigns, escVals_inert xs (by simpa [noDollarVal] using h)]
+  | .map m, h => by rw [escapeDollarSigns, escKVs_inert m (by simpa [noDollarVal] using h)]
+  | .expanded _ _, h => by simp [noDollarVal] at h
+  | .null, _ => by simp [escapeDollarSigns]
+  | .bool _, _ => by simp [escapeDollarSigns]
+  | .int _, _ => by simp [escapeDollarSigns]
+  | .float _, _ => by simp [escapeDollarSigns]
+  | .other _, _ => by simp [escapeDollarSigns]
+theorem escVals_inert : ∀ xs : Vals, noDollarVals xs = true → escVals xs = xs
+  | .nil, _ => by simp [escVals]
+  | .cons v vs, h => by
+    simp only [noDollarVals, Bool.and_eq_true] at h
+    rw [escVals, escape_inert v h.1, escVals_inert vs h.2]
+theorem escKVs_inert : ∀ m : KVs, noDollarKVs m = true → escKVs m = m
+  | .nil, _ => by simp [escKVs]
+  | .cons k v r, h => by
+    simp only [noDollarKVs, Bool.and_eq_true] at h
+    rw [escKVs, escape_inert v h.1, escKVs_inert r h.2]
+end
+
+mutual
+theorem sanitize_inert (b : Bool) : ∀ v : Val, noDollarVal v = true → sanitize b v = v
+  | .str _, _ => by simp [sanitize]
+  | .list xs, h => by rw [sanitize, sanVals_inert b xs (by simpa [noDollarVal] using h)]
+  | .map m, h => by rw [sanitize, sanKVs_inert b m (by simpa [noDollarVal] using h)]
+  | .expanded _ _, h => by simp [noDollarVal] at h
+  | .null, _ => by simp [sanitize]
+  | .bool _, _ => by simp [sanitize]
+  | .int _, _ => by simp [sanitize]
+  | .float _, _ => by simp [sanitize]
+  | .other _, _ => by simp [sanitize]
+theorem sanVals_inert (b : Bool) : ∀ xs : Vals, noDollarVals xs = true → sanVals b xs = xs
+  | .nil, _ => by simp [sanVals]
+  | .cons v vs, h => by
+    simp only [noDollarVals, Bool.and_eq_true] at h
+    rw [sanVals, sanitize_inert b v h.1, sanVals_inert b vs h.2]
+theorem sanKVs_inert (b : Bool) : ∀ m : KVs, noDollarKVs m = true → sanKVs b m = m
+  | .nil, _ => by simp [sanKVs]
+  | .cons k v r, h => by
+    simp only [noDollarKVs, Bool.and_eq_true] at h
+    rw [sanKVs, sanitize_inert b v h.1, sanKVs_inert b r h.2]
+end
+
+/-- element-wise relation between two lists of the same length -/
+inductive Pointwise {α β : Type} (R : α → β → Prop) : List α → List β → Prop
+  | nil : Pointwise R [] []
+  | cons {a b as bs} : R a b → Pointwise R as bs → Pointwise R (a :: as) (b :: bs)
+
+theorem resolveLeaves_ok (env : Env) : ∀ (ls out : List (List Str × Val)), resolveLeaves env ls = .ok out →
+    Pointwise (fun l o => o.1 = l.1 ∧ resolveValue env l.2 = .ok o.2) ls out
+  | [], out, h => by simp [resolveLeaves] at h; subst h; exact .nil
+  | (p, v) :: rest, out, h => by
+    rw [resolveLeaves] at h
+    cases hv : resolveValue env v with
+    | error e => simp [hv] at h
+    | ok v' =>
+      simp only [hv] at h
+      cases hr : resolveLeaves env rest with
+      | error e => simp [hr] at h
+      | ok r =>
+        simp only [hr, Except.ok.injEq] at h
+        subst h
+        exact .cons ⟨rfl, hv⟩ (resolveLeaves_ok env rest r hr)
+
+theorem resolveLeaves_id (env : Env) : ∀ ls : List (List Str × Val),
+    (∀ l ∈ ls, resolveValue env l.2 = .ok l.2) → resolveLeaves env ls = .ok ls
+  | [], _ => rfl
+  | (p, v) :: rest, h => by
+    rw [resolveLeaves, h (p, v) (List.mem_cons_self ..),
+      resolveLeaves_id env rest (fun l hl => h l (List.mem_cons_of_mem _ hl))]
+
 end OtelVerif.C12
